@@ -386,6 +386,7 @@ func runC02(c *Ctx) {
 	r.Rule("R3", "in the receive goroutine the only exits of the read loop are on the error result of the framing read; a line the parser rejects returns to the loop head; a line it accepts is handed to the inbound queue by a blocking send before the next read")
 	r.Rule("R4", "no lock is acquired while already held in any function of the unprotected region or in the tracker (a self-deadlock stops line processing without a panic)")
 	r.Rule("R6", "a panic that the recovery hook catches leaves no library lock behind (shared with C16.R5): under every lock of client/state that is released by an explicit Unlock, every potentially panicking instruction, callees included, is proved safe - otherwise one malformed line wedges every later line that needs the lock")
+	r.Rule("R8", "no reply the built-in handlers echo from server data can end the connection: the write function of the send goroutine returns an error only when a socket operation returned one (nil, the error of WriteString/Flush, or that of its socket-write helper); the sender treats every error as a dead link")
 	r.Rule("R7", "the message splitter terminates on every text (the CTCP handlers echo server-chosen bytes through it): in every loop of the splitting code that continues with a suffix s[i:] of its own text, i >= 1 is proved")
 	r.Rule("R5", "the connection goroutines never start with a nil reader/writer or socket: every member spawn is dominated by a store of bufio.NewReadWriter(...) to the buffered-I/O field, and every path of the connect routine from the per-connection reset to the spawning call stores a dialled socket")
 
@@ -500,6 +501,7 @@ func runC02(c *Ctx) {
 		c.lockReleasedRule("R6", lf)
 	}
 	c.consumingLoopsRule("R7", p)
+	c.writeErrorsRule("R8")
 
 	// R4
 	var funcs []*ssa.Function
